@@ -90,7 +90,9 @@ def run_isolated(module, func, args_list, timeout=90, workers=8, retries=2):
                     p.communicate()
                     continue
                 if p.returncode != 0 or "@@RESULT@@" not in out:
-                    raise RuntimeError("isolated driver failed: " + err[-1500:])
+                    if "ModuleNotFoundError" in err or "No module named" in err or "MemoryError" in err:
+                        raise RuntimeError("isolated driver failed: " + err[-1500:])       # the machinery, not the implementation
+                    return {"crash": err[-1500:]}
                 return json.loads(out.split("@@RESULT@@", 1)[1])
             except subprocess.TimeoutExpired:
                 continue
